@@ -107,11 +107,15 @@ model_load(void)
 	}
 }
 
-/* TAI-UTC in force at Unix second T; -1 before the table starts */
+/* TAI-UTC in force at Unix second T.  Reading: the table's first line only states the value
+ * in force from 1972-01-01 on and lists no insertion on 1971-12-31, so before the first
+ * entry the first entry's value holds (what the tree does), crossing the first entry inserts
+ * nothing and 1971-12-31T23:59:60 does not exist.  -1 before 1970-01-01 (outside the
+ * property's quantifier "all instants 1970..4095") */
 static int
 m_off(int64_t t)
 {
-	int off = -1;
+	int off = t >= 0 ? lm[0].corr : -1;
 	for (int i = 0; i < nlm; i++) {
 		if (lm[i].t <= t) {
 			off = lm[i].corr;
@@ -120,7 +124,14 @@ m_off(int64_t t)
 	return off;
 }
 
-/* is the midnight T an instant before which a second was inserted */
+/* is the instant before the table's first entry (own class keys) */
+static int
+m_before_first(int64_t t)
+{
+	return t < lm[0].t;
+}
+
+/* is the midnight T an instant before which a second was inserted (never the first entry) */
 static int
 m_insert_before(int64_t t)
 {
@@ -242,6 +253,7 @@ static void
 mk_I(void)
 {
 	static const int64_t far[] = {
+		0 /* 1970-01-01T00:00:00 */, 47174399 /* 1971-06-30T23:59:59 */, 47174400, 62985600 /* 1971-12-31T00:00:00 */,
 		63072000 + 86400 * 200LL, 315964800 /* 1980-01-06 */, 946684799, 946684800, 1577836800 /* 2020-01-01 */,
 		2147483647LL, 2147483648LL, 2208988800LL /* 2040-01-01 */, 4107542400LL /* 2100-03-01 */,
 		4294967295LL, 4294967296LL, 8589934592LL, 67090118399LL /* 4095-12-31T23:59:59 */,
@@ -318,7 +330,7 @@ judge_bis_day(int enc, int rd, int replay)
 	struct dt_dt_s v;
 	uint32_t word;
 	EX_CTR(c_trans, "transitions");
-	EX_CTR(c_skipb, "skipped:instant before the first table entry (1972-01-01): the table has no value");
+	EX_CTR(c_skipb, "skipped:instant before 1970-01-01 (outside the property's quantifier)");
 	EX_CTR(c_skipv, "skipped:the representation has no such value (text not accepted)");
 
 	if (want < 0) {
@@ -341,7 +353,8 @@ judge_bis_day(int enc, int rd, int replay)
 		if (got <= -1000) {
 			snprintf(key, sizeof(key), "bisection enc=%s: %s", enc_name[enc], bis_what(got));
 		} else {
-			snprintf(key, sizeof(key), "bisection enc=%s: offset %s", enc_name[enc], got < want ? "too small" : "too large");
+			snprintf(key, sizeof(key), "bisection enc=%s%s: offset %s", enc_name[enc], m_before_first(u) ? " before-first-entry" : "",
+				 got < want ? "too small" : "too large");
 		}
 		snprintf(cas, sizeof(cas), "BISD %d %d", enc, rd);
 		ex_viol(key, rd, cas, NULL, "leaps_before_ui32 over the %s encoding with the key of %04d-%02d-%02d (0x%x) gives index %zu, "
@@ -358,7 +371,7 @@ judge_bis_epoch(int64_t t, int replay)
 	size_t idx;
 	char key[160], cas[64];
 	EX_CTR(c_trans, "transitions");
-	EX_CTR(c_skipb, "skipped:instant before the first table entry (1972-01-01): the table has no value");
+	EX_CTR(c_skipb, "skipped:instant before 1970-01-01 (outside the property's quantifier)");
 
 	got = bis_off(E_EPOCH, t, &idx);
 	++*c_trans;
@@ -377,7 +390,7 @@ judge_bis_epoch(int64_t t, int replay)
 		return 0;
 	}
 	if (got != want) {
-		snprintf(key, sizeof(key), "bisection enc=epoch: offset %s", got < want ? "too small" : "too large");
+		snprintf(key, sizeof(key), "bisection enc=epoch%s: offset %s", m_before_first(t) ? " before-first-entry" : "", got < want ? "too small" : "too large");
 		snprintf(cas, sizeof(cas), "BISE %lld", (long long)t);
 		ex_viol(key, (double)t, cas, NULL, "leaps_before_si32 with key %lld gives index %zu, TAI-UTC %d; the table says %d",
 			(long long)t, idx, got, want);
@@ -399,7 +412,7 @@ judge_offs(int gps, int64_t t, int replay)
 	int bad = 0;
 	EX_CTR(c_trans, "transitions");
 	EX_CTR(c_eval, "evaluations");
-	EX_CTR(c_skipb, "skipped:instant before the first table entry (1972-01-01): the table has no value");
+	EX_CTR(c_skipb, "skipped:instant before 1970-01-01 (outside the property's quantifier)");
 	EX_CTR(c_skipg, "skipped:GPS offset before the GPS epoch 1980-01-06");
 
 	if (want < 0) {
@@ -427,7 +440,7 @@ judge_offs(int gps, int64_t t, int replay)
 	}
 	if (rc || loc - t != want) {
 		snprintf(key, sizeof(key), "offset zone=%s via=zif_local_time %s: %s", gps ? "GPS" : "TAI",
-			 t >= 2147483648LL ? "at-or-after-2^31" : "before-2^31",
+			 m_before_first(t) ? "before-first-entry" : t >= 2147483648LL ? "at-or-after-2^31" : "before-2^31",
 			 rc == 1 ? "does not return" : rc ? "crashes" : loc - t < want ? "too small" : "too large");
 		snprintf(cmd, sizeof(cmd), "dconv --zone %s %s", gps ? "GPS" : "TAI", inst_name((struct inst_s){t, 0}, nm, sizeof(nm)));
 		ex_viol(key, (double)t, cas, cmd, "zif_local_time(%s, %lld) - t is %lld; the table says %s-UTC = %d at that instant",
@@ -455,7 +468,7 @@ judge_offs(int gps, int64_t t, int replay)
 			}
 			if (rc || !dec || s60 || gi != t + want) {
 				snprintf(key, sizeof(key), "offset zone=%s via=dconv %s: %s", gps ? "GPS" : "TAI",
-					 t >= 2147483648LL ? "at-or-after-2^31" : "before-2^31",
+					 m_before_first(t) ? "before-first-entry" : t >= 2147483648LL ? "at-or-after-2^31" : "before-2^31",
 					 rc == 1 ? "does not return" : rc ? "crashes" : !dec || s60 ? "not a plain date-time" : gi - t < want ? "too small" : "too large");
 				snprintf(cmd, sizeof(cmd), "dconv --zone %s %s", gps ? "GPS" : "TAI", text);
 				ex_viol(key, (double)t, cas, cmd, "dconv --zone %s %s gives '%s'; the table says %s-UTC = %d there", gps ? "GPS" : "TAI",
@@ -516,7 +529,7 @@ judge_rs(int h, int ia, int ib, int replay)
 	EX_CTR(c_trans, "transitions");
 	EX_CTR(c_eval, "evaluations");
 	EX_CTR(c_nontriv, "nontrivial");
-	EX_CTR(c_skipb, "skipped:instant before the first table entry (1972-01-01): the table has no value");
+	EX_CTR(c_skipb, "skipped:instant before 1970-01-01 (outside the property's quantifier)");
 	EX_CTR(c_skipv, "skipped:the representation has no such value (text not accepted, no name for 23:59:60, or it does not print as itself: C09/C02/C01)");
 
 	if (!m_tai(I[ia], &taia) || !m_tai(I[ib], &taib)) {
@@ -543,9 +556,11 @@ judge_rs(int h, int ia, int ib, int replay)
 	}
 	if (!ok || !got[0] || *ep || g != want) {
 		if (llabs(want) >= 2147483648LL) {
-			snprintf(key, sizeof(key), "rS rep=%s sign=%c span=2^31-or-more", held_name[h], want < 0 ? '-' : '+');
+			snprintf(key, sizeof(key), "rS rep=%s sign=%c span=2^31-or-more%s", held_name[h], want < 0 ? '-' : '+',
+				 m_before_first(I[ia].u - I[ia].s60) || m_before_first(I[ib].u - I[ib].s60) ? " operand=before-first-entry" : "");
 		} else {
 			snprintf(key, sizeof(key), "rS rep=%s sign=%c %sleaps-between=%s on-60=%s", held_name[h], want < 0 ? '-' : want > 0 ? '+' : '0',
+				 m_before_first(I[ia].u - I[ia].s60) || m_before_first(I[ib].u - I[ib].s60) ? "operand=before-first-entry " :
 				 I[ia].u >= 2147483648LL || I[ib].u >= 2147483648LL ? "operand=at-or-after-2^31 " : "",
 				 nleap_name(m_leaps_between(taia, taib)), I[ia].s60 || I[ib].s60 ? "yes" : "no");
 		}
@@ -560,8 +575,8 @@ judge_rs(int h, int ia, int ib, int replay)
 }
 
 /* ---- ADD: +Nrs ---- */
-static const long long rs_n[] = {1, 2, 3, 60, 86400, 86401, 10000000LL, 1000000000LL};
-#define NRSN	8
+static const long long rs_n[] = {1, 2, 3, 60, 86400, 86401, 10000000LL, 1000000000LL, 1500000000LL};
+#define NRSN	9
 struct rsdur_s {
 	char text[24];
 	long long n;
@@ -612,9 +627,9 @@ judge_addrs(int h, int ia, int k, int replay)
 	EX_CTR(c_trans, "transitions");
 	EX_CTR(c_eval, "evaluations");
 	EX_CTR(c_nontriv, "nontrivial");
-	EX_CTR(c_skipb, "skipped:instant before the first table entry (1972-01-01): the table has no value");
+	EX_CTR(c_skipb, "skipped:instant before 1970-01-01 (outside the property's quantifier)");
 	EX_CTR(c_skipv, "skipped:the representation has no such value (text not accepted, no name for 23:59:60, or it does not print as itself: C09/C02/C01)");
-	EX_CTR(c_skipr, "skipped:result before 1972-01-01 or after 4095-12-31");
+	EX_CTR(c_skipr, "skipped:result before 1970-01-01 or after 4095-12-31");
 
 	if (!d->ok) {
 		snprintf(key, sizeof(key), "duration '%s' is not accepted", d->text);
@@ -631,7 +646,11 @@ judge_addrs(int h, int ia, int k, int replay)
 		return 0;
 	}
 	want = taia + d->n;
-	if (want < lm[0].t + lm[0].corr || want > 67090118399LL + lm[nlm - 1].corr) {
+	if (llabs(d->n) == 1500000000LL && !m_before_first(I[ia].u - I[ia].s60)) {
+		/* this count exists to span 1970/1971 -> 2017; it is applied to starts before the first entry only */
+		return 0;
+	}
+	if (want < 0 + lm[0].corr || want > 67090118399LL + lm[nlm - 1].corr) {
 		++*c_skipr;
 		return 0;
 	}
@@ -658,7 +677,8 @@ judge_addrs(int h, int ia, int k, int replay)
 		       (long long)taia, d->n, (long long)want, m_tai_is_leap(want) ? " (an inserted second: 23:59:60)" : "");
 	}
 	if (why) {
-		snprintf(key, sizeof(key), "add-rs rep=%s sign=%c leaps-crossed=%s start-on-60=%d lands-on-60=%d: %s", held_name[h], d->n < 0 ? '-' : '+',
+		snprintf(key, sizeof(key), "add-rs rep=%s sign=%c %sleaps-crossed=%s start-on-60=%d lands-on-60=%d: %s", held_name[h], d->n < 0 ? '-' : '+',
+			 m_before_first(I[ia].u - I[ia].s60) ? "start=before-first-entry " : want < lm[0].t + lm[0].corr ? "result=before-first-entry " : "",
 			 nleap_name(nl), I[ia].s60, m_tai_is_leap(want), why);
 		snprintf(cas, sizeof(cas), "ADDRS %d %d %d", h, ia, k);
 		snprintf(cmd, sizeof(cmd), "dadd %s%s%s%s%s%s%s %s", held_ifmt[h] ? "-i '" : "", held_ifmt[h] ? held_ifmt[h] : "", held_ifmt[h] ? "' " : "",
@@ -822,12 +842,15 @@ main(int argc, char *argv[])
 		"at 00:00:00 of the day), every bisection call under the watchdog. OFFS: zif_local_time(TAI|GPS, t) - t and the printed result of "
 		"dtz_enrichz (dconv --zone) = model offset (GPS: -19, from 1980-01-06). RS: the text ddiff.c prints for %%rS = tai(B) - tai(A). "
 		"ADD: the printed result of dt_dtadd with a +Nrs duration (parsed by dt_io_strpdtdur) decodes to tai(start) + N, second 60 only on "
-		"inserted seconds. Instants before 1972-01-01 are outside the table and skipped. non-trivial = pair / addition with at least one "
+		"inserted seconds. Before the first entry (1970-01-01..1971-12-31) the first entry's TAI-UTC (10 s) holds, as the tree answers today: "
+		"the list's first line only states the value in force from 1972-01-01 and lists no insertion on 1971-12-31, so crossing the first entry "
+		"inserts nothing and 1971-12-31T23:59:60 does not exist; such cases carry 'before-first-entry' in their class key. Instants before "
+		"1970-01-01 are outside the quantifier and skipped. non-trivial = pair / addition with at least one "
 		"inserted second between its ends", nlm);
-	ex_meta("bound", "I = every entry -2..+2 s, every inserted second 23:59:60, 13 far instants (2^31-1, 2^31, 2040, 2100, 2^32-1, 2^32, 2^33, "
+	ex_meta("bound", "I = every entry -2..+2 s, every inserted second 23:59:60, 1970-01-01T00:00:00, 1971-06-30T23:59:59/1971-07-01, 1971-12-31T00:00:00, 13 far instants (2^31-1, 2^31, 2040, 2100, 2^32-1, 2^32, 2^33, "
 		"4095-12-31T23:59:59 ...): %d instants. BIS: epoch keys = I, every midnight 1970..4095, the int32 extremes; ymd/ymcw/day-count keys = "
-		"every day 1970-01-01..4095-12-31 and the uint32 extremes. OFFS: I, every midnight 1972..4095, 2^31+-2, 2^32+-2, 2^33 x {TAI,GPS} x "
-		"{zif_local_time, dconv path}. RS: all %d ordered pairs of I x %d held representations (%s). ADD: I x +-{1,2,3,60,86400,86401,10^7,10^9} rs "
+		"every day 1970-01-01..4095-12-31 and the uint32 extremes. OFFS: I, every midnight 1970..4095, 2^31+-2, 2^32+-2, 2^33 x {TAI,GPS} x "
+		"{zif_local_time, dconv path}. RS: all %d ordered pairs of I x %d held representations (%s). ADD: I x +-{1,2,3,60,86400,86401,10^7,10^9} rs, and +-1.5*10^9 rs from the instants before the first entry, "
 		"x the same representations", nI, nI * nI, nrep, ex.thorough ? "ymd ymcw daisy epoch ywd yd" : "ymd ymcw daisy epoch");
 	ex_meta("binding", "dconv --zone TAI|GPS, ddiff REF -f %%rS and dadd +Nrs binaries of the same build on the instant set from stdin, "
 		"byte-compared with the library-level observation");
@@ -874,7 +897,7 @@ main(int argc, char *argv[])
 			if (t <= INT32_MAX) {
 				judge_bis_epoch(t, 0);
 			}
-			if (y >= 1972) {
+			{
 				judge_offs(0, t, 0);
 				judge_offs(1, t, 0);
 			}
